@@ -48,6 +48,10 @@ func describe(ds []cDiag) string {
 		k := keyOf(d)
 		s += fmt.Sprintf("%s@%d[%d:%d] tag=%q msg=%q lvl=%d in=%q n%d h%d d%d a%d", k.Path, k.Stage, k.Start, k.End,
 			k.Tag, k.Msg, d.Level, d.InFile, len(d.Notes), len(d.Help), len(d.Debug), len(d.Anns))
+		for _, a := range d.Anns {
+			s += fmt.Sprintf(" {%s[%d:%d] %q pb=%v edits=%v}", a.Path, a.Start, a.End, a.Msg, a.Pb, a.Edits)
+		}
+		s += fmt.Sprintf(" notes=%q help=%q debug=%q", d.Notes, d.Help, d.Debug)
 	}
 	return s
 }
